@@ -158,3 +158,148 @@ Example nv_400_401 :
   e_out (run_stmt nv_store (SInsert "t" [] [[VStr (rep_string 395)]])) = OOk 1 /\
   e_out (run_stmt nv_store (SInsert "t" [] [[VStr (rep_string 396)]])) = OErr ERowTooLarge.
 Proof. split; [|split]; vm_compute; reflexivity. Qed.
+
+(* ====================== the oracles of the check and the theorems ======================
+   tools/props/c08.py judges every case in two ways: MM (the model agrees with what Go did) and SM
+   (an oracle on the observations alone accepts what Go did). Both links oracle <- model are proved:
+   agreement implies acceptance, so an SM verdict is never a false alarm on code that conforms to
+   the model, and every SM rejection contradicts the theorems above.
+
+   (a) HISTORIES (CREATE TABLE, single-row INSERT / UPDATE with boundary values given as direct
+   statement values or SQL text - the same statement tree either way -, flush, crash-restart,
+   read-backs): MM = `model_agrees`, SM = `spec_accepts_strict` of Spec/HistObs.v. The theorem is
+   C01's (Proofs/OracleSound.v, OracleCrash.v) with its hypotheses, all boolean on the history:
+   hist_shape_c (statements, flushes, crash-restarts, read-backs, dumps), hev_ok (literals are Go
+   values: `val_ok` = integers within int64 - negative ones included -, strings of any bytes shorter
+   than 2^32), hev_stmt_shape (no INSERT without rows, no UPDATE / DELETE on a catalog table),
+   frontier_ok (data file below 2^63 bytes), reads_cover (a read-back does not skip a table and come
+   back to it: C08 reads its one table every time), strict_hev (CREATE TABLE does not take a catalog
+   name and its catalog rows are storable). C08_history_nonvacuous is a history of the kind the
+   check generates that meets them all. *)
+From Mkdb Require Import Proofs.RefineCodec Proofs.RefineMain Proofs.OracleSound Proofs.OracleCrash.
+
+Theorem C08_agreement_implies_acceptance : forall c,
+  model_agrees c = true ->
+  hist_shape_c (fst c) = true -> forallb hev_ok (fst c) = true -> forallb hev_stmt_shape (fst c) = true ->
+  frontier_ok init_sys (fst c) = true -> reads_cover [] [] [] (fst c) = true ->
+  forallb strict_hev (fst c) = true ->
+  spec_accepts_strict c = true.
+Proof. exact agreement_implies_strict_acceptance_crash. Qed.
+Print Assumptions C08_agreement_implies_acceptance.
+
+(* the values of C08's histories are admitted by hev_ok: negative integers down to -2^63, strings
+   with NUL / 0xFF / quote / backslash / line break; only integers outside int64 (which Go cannot
+   hold) and strings of 4 GiB are not *)
+Example C08_val_ok_admits :
+  forallb val_ok [VInt (-9223372036854775808); VInt 9223372036854775807; VInt (-1); VS [0; 255; 39; 92; 10]; VStr "";
+                  VBool true; VNull] = true /\
+  val_ok (VInt 9223372036854775808) = false /\ val_ok (VInt (-9223372036854775809)) = false.
+Proof. vm_compute. repeat split; reflexivity. Qed.
+
+Definition c08_where (k : Z) : option expr := Some (EPred (XCol (mkCol "" "k")) CEq (XLit (VInt k))).
+Definition hevs_c08 : list hevent :=
+  [HEv (EvStmt (SCreateTable "t" [mkColDef "k" STNumeric; mkColDef "b" STBigInt; mkColDef "s" (STVarchar 400);
+                                  mkColDef "f" STBoolean]));
+   HEv (EvStmt (SInsert "t" [] [[VInt 1; VInt (-9223372036854775808); VS [0; 255; 39; 92; 10]; VBool true]]));
+   HEv (EvStmt (SInsert "t" [] [[VInt (-2147483648); VNull; VStr ""; VNull]]));
+   HEv (EvStmt (SInsert "t" [] [[VInt 2147483648; VNull; VNull; VNull]]));                 (* INT range *)
+   HEv (EvStmt (SInsert "t" [] [[VInt 3; VStr "7"; VNull; VNull]]));                       (* wrong type *)
+   HEv (EvStmt (SInsert "t" [] [[VInt 4; VNull; VStr (rep_string 388); VNull]]));          (* exactly 400 bytes *)
+   HEv (EvStmt (SInsert "t" [] [[VInt 5; VNull; VStr (rep_string 389); VNull]]));          (* 401 bytes *)
+   HReadTables ["t"];
+   HEv (EvStmt (SInsert "t" ["zz"] [[VInt 6]]));                                           (* unknown column *)
+   HEv (EvStmt (SUpdate "t" [("s", XLit (VS [255]))] (c08_where 1)));
+   HEv (EvStmt (SUpdate "t" [("k", XLit (VInt (-2147483649)))] (c08_where 1)));            (* INT range *)
+   HReadTables ["t"]; HEv EvFlush; HEv EvCrash; HReadTables ["t"]].
+
+Example C08_history_nonvacuous :
+  hist_shape_c hevs_c08 = true /\ forallb hev_ok hevs_c08 = true /\ forallb hev_stmt_shape hevs_c08 = true /\
+  frontier_ok init_sys hevs_c08 = true /\ reads_cover [] [] [] hevs_c08 = true /\
+  forallb strict_hev hevs_c08 = true /\
+  map (fun o => match o with HOut x => Some x | _ => None end) (run_h init_sys hevs_c08) =
+    [Some OBok; Some OBok; Some OBok; Some (OBerr EIntRange); Some (OBerr ETypeMismatch); Some OBok;
+     Some (OBerr ERowTooLarge); None; Some (OBerr EFieldNotFound); Some OBok; Some (OBerr EIntRange);
+     None; Some OBok; Some OBok; None] /\
+  (match nth 14 (run_h init_sys hevs_c08) HNone with
+   | HTables [(_, TRows _ rows)] => map (fun r => firstn 3 (snd r)) rows
+   | _ => []
+   end) = [[VInt 1; VInt (-9223372036854775808); VS [255]]; [VInt (-2147483648); VNull; VStr ""];
+           [VInt 4; VNull; VStr (rep_string 388)]] /\
+  model_agrees (hevs_c08, run_h init_sys hevs_c08) = true /\
+  spec_accepts_strict (hevs_c08, run_h init_sys hevs_c08) = true.
+Proof. vm_compute. repeat split; reflexivity. Qed.
+
+(* (b) BYTE-EXACT Tuple.Encode: per case (schema, tuple map, what Encode returned, what Decode of
+   those bytes returned), TM = `tuple_model_agrees`, TS = `tuple_spec` (Spec/TupleObs.v: decoding
+   what Go encoded gives the values back). Proofs/TupleOracle.v: for every schema (column names may
+   repeat) and every tuple map, agreement implies acceptance, under
+   - tuple_vals_ok (input): the values read by the schema's columns are Go values (val_ok); without
+     it the oracle rejects the model, whose integers are unbounded (C08_tuple_vals_ok_needed);
+   - tuple_dec_present (observation): an encoded row was also decoded. `tuple_model_agrees` does
+     not compare a missing decode with the model (which decodes everything it encodes), the oracle
+     rejects it (C08_tuple_dec_present_needed): a gap of the agreement function.
+   `tuple_spec` judges the round trip only (it accepts every refusal, any size, a panic);
+   `tuple_spec_strict` (a proposal, Spec/TupleObs.v) adds the size law and the refusal conditions in
+   the specification's terms (row_err / row_size) and is accepted under the same hypotheses. *)
+From Mkdb Require Import Spec.TupleObs Proofs.TupleOracle.
+
+Theorem C08_tuple_oracle_accepts_model : forall sch m,
+  forallb (fun fd => val_ok (tget (fd_name fd) m)) sch = true ->
+  tuple_spec (sch, m, fst (tuple_model_obs sch m), snd (tuple_model_obs sch m)) = true /\
+  tuple_spec_strict (sch, m, fst (tuple_model_obs sch m), snd (tuple_model_obs sch m)) = true.
+Proof. exact tuple_oracle_accepts_model. Qed.
+Print Assumptions C08_tuple_oracle_accepts_model.
+
+Theorem C08_tuple_agreement_implies_acceptance : forall c : tuple_case,
+  tuple_vals_ok c = true -> tuple_dec_present c = true ->
+  tuple_model_agrees c = true -> tuple_spec c = true.
+Proof. exact tuple_agreement_implies_acceptance. Qed.
+Print Assumptions C08_tuple_agreement_implies_acceptance.
+
+Theorem C08_tuple_agreement_implies_strict_acceptance : forall c : tuple_case,
+  tuple_vals_ok c = true -> tuple_dec_present c = true ->
+  tuple_model_agrees c = true -> tuple_spec_strict c = true.
+Proof. exact tuple_agreement_implies_strict_acceptance. Qed.
+Print Assumptions C08_tuple_agreement_implies_strict_acceptance.
+
+Example C08_tuple_vals_ok_needed :
+  let sch := [mkField TBigInt "a" 0] in
+  let m := [("a", VInt 9223372036854775808)] in
+  let c := (sch, m, fst (tuple_model_obs sch m), snd (tuple_model_obs sch m)) in
+  tuple_vals_ok c = false /\ tuple_dec_present c = true /\ tuple_model_agrees c = true /\ tuple_spec c = false.
+Proof. vm_compute. repeat split; reflexivity. Qed.
+
+Example C08_tuple_dec_present_needed :
+  let sch := [mkField TInt "a" 0] in
+  let m := [("a", VInt 5)] in
+  let c := (sch, m, encode_tuple sch m, None) in
+  tuple_vals_ok c = true /\ tuple_dec_present c = false /\ tuple_model_agrees c = true /\ tuple_spec c = false.
+Proof. vm_compute. repeat split; reflexivity. Qed.
+
+(* non-vacuity: the four types at their boundaries, a NULL, arbitrary bytes; an accepted case, a
+   case refused for INT range, a case refused for a wrong type; the oracles have teeth: a changed
+   decoded value, a refusal of the valid row and an acceptance of the invalid one are rejected *)
+Definition c08_tuple : tuple :=
+  [("a", VInt (-2147483648)); ("b", VInt 9223372036854775807); ("c", VS [0; 255; 39]); ("d", VBool true)].
+Definition c08_sch5 : schema := (nv_sch ++ [mkField TVarchar "e" 0])%list.
+Example C08_tuple_nonvacuous :
+  let ok_case := (c08_sch5, c08_tuple, fst (tuple_model_obs c08_sch5 c08_tuple), snd (tuple_model_obs c08_sch5 c08_tuple)) in
+  let bad1 := [("a", VInt 2147483648)] in
+  let range_case := (c08_sch5, bad1, fst (tuple_model_obs c08_sch5 bad1), snd (tuple_model_obs c08_sch5 bad1)) in
+  let bad2 := [("a", VInt 1); ("d", VInt 1)] in
+  let type_case := (c08_sch5, bad2, fst (tuple_model_obs c08_sch5 bad2), snd (tuple_model_obs c08_sch5 bad2)) in
+  snd (tuple_model_obs c08_sch5 c08_tuple) =
+    Some [VInt (-2147483648); VInt 9223372036854775807; VS [0; 255; 39]; VBool true; VNull] /\
+  option_map (@length _) (match fst (tuple_model_obs c08_sch5 c08_tuple) with Ok bs => Some bs | _ => None end) = Some 25%nat /\
+  fst (tuple_model_obs c08_sch5 bad1) = Err EIntRange /\ fst (tuple_model_obs c08_sch5 bad2) = Err ETypeMismatch /\
+  forallb tuple_vals_ok [ok_case; range_case; type_case] = true /\
+  forallb tuple_dec_present [ok_case; range_case; type_case] = true /\
+  forallb tuple_model_agrees [ok_case; range_case; type_case] = true /\
+  forallb tuple_spec [ok_case; range_case; type_case] = true /\
+  forallb tuple_spec_strict [ok_case; range_case; type_case] = true /\
+  tuple_spec (c08_sch5, c08_tuple, fst (tuple_model_obs c08_sch5 c08_tuple),
+              Some [VInt (-2147483648); VInt 9223372036854775807; VS [0; 255]; VBool true; VNull]) = false /\
+  tuple_spec_strict (c08_sch5, c08_tuple, Err EIntRange, None) = false /\
+  tuple_spec_strict (c08_sch5, bad1, fst (tuple_model_obs c08_sch5 [("a", VInt 0)]),
+                     snd (tuple_model_obs c08_sch5 [("a", VInt 0)])) = false.
+Proof. vm_compute. repeat split; reflexivity. Qed.
